@@ -3,6 +3,7 @@
 import itertools
 import random
 
+from .. import suiteengine
 from ..common import new_scratch, rmtree, split_seeds, clear_atexit_tmp_handlers, ncpu, ALL_ALGOS
 from ..gen import make_content, object_menu, random_object_op, op_shape, chunk, spelling
 from ..model import Model, ALREADY
@@ -48,6 +49,7 @@ def shards(tier, seed):
     nrand = 320 if tier == "quick" else 8000
     for s in split_seeds(seed * 1000 + 3, n):
         out.append(("rand", nrand // n, None, s))
+    out.append(("suite", 0, None, 0))
     # (b) the same guarantee under controlled interleavings: two calls that try to bind ONE pid (to the same or to
     # different cids) + one call on another pid that shares a lock/condition with them
     from .. import concprops as P
@@ -119,6 +121,10 @@ CONC_SYMPTOMS = {"outcome-not-sequential", "state-not-sequential"}
 
 
 def run_shard(mode, n, firsts, sub_seed):
+    if mode == "suite":
+        res = ShardResult()
+        suiteengine.run(res, ID)
+        return res
     if mode == "conc":
         from .. import concprops as P
         tier = firsts
